@@ -143,4 +143,36 @@ theorem items_eq_itemsL (lf : Str → R LineOut × Nat) (h : LineLocal lf) (fuel
           | skip => simp only [itemsL, ← hfst, hdrop]; exact ih rest hlen
           | code bs => simp only [itemsL, ← hfst, hdrop, ih rest hlen]
 
+theorem splitEol_split (t1 : Str) (e : Ch) (t2 : Str) (he : eolCh e = true) :
+    splitEol (t1 ++ e :: t2) = splitEol t1 ++ splitEol t2 := by
+  induction t1 with
+  | nil => simp [splitEol, he]
+  | cons c cs ih =>
+    simp only [List.cons_append, splitEol]
+    by_cases hc : eolCh c = true
+    · simp [hc, ih]
+    · simp only [hc, ih]
+      have hne := splitEol_ne_nil cs
+      cases hs : splitEol cs with
+      | nil => exact absurd hs hne
+      | cons l ls => simp
+
+theorem itemsL_append (lf : Str → R LineOut × Nat) (ls1 ls2 : List Str) :
+    itemsL lf (ls1 ++ ls2) =
+      match (itemsL lf ls1).err with
+      | some e => ⟨(itemsL lf ls1).codes, some e⟩
+      | none => ⟨(itemsL lf ls1).codes ++ (itemsL lf ls2).codes, (itemsL lf ls2).err⟩ := by
+  induction ls1 with
+  | nil => simp [itemsL]
+  | cons l ls ih =>
+    simp only [List.cons_append, itemsL]
+    cases hres : (lf l).1 with
+    | error er => simp
+    | ok lo =>
+      cases lo with
+      | skip => simp only [ih]
+      | code bs =>
+        simp only [ih]
+        cases (itemsL lf ls).err <;> simp
+
 end AL.Lemmas
